@@ -174,6 +174,9 @@ WF_SPELL = {
            + rc.NAN_CASES,
 }
 WF_SPELL["datetime"] = WF_SPELL["datetime"] + rc.NAN_CASES
+# nanosecond precision (7-9 fractional digits): every digit is part of the timestamp
+NS_SPELL = ["2021-03-04 05:06:07.123456789", "2021-03-04T05:06:07.000000001", "2020-01-02 03:04:05.1234567"]
+WF_SPELL["datetime"] = WF_SPELL["datetime"] + NS_SPELL
 WF_NATIVE = {
     "text": ["s", "", 5, 1.5, True, None, datetime.datetime(2020, 1, 2)],
     "onoff": [True, False, 0, 1, 0.0, 1.0, -0.0, "true"],
@@ -234,6 +237,64 @@ def wf_grid(rng, native=False):
     return grid, {"transposed": transposed, "kinds": kinds, "n_row": n_row}
 
 
+def check_json_form(grid, ref, out, case):
+    from pdtable.io.parsers.blocks import make_table_json_data
+    try:
+        with warnings.catch_warnings():
+            warnings.simplefilter("ignore")
+            j = make_table_json_data([list(r) for r in grid], None, rc.make_fixer("strict"))
+    except Exception as e:  # noqa: BLE001
+        out.fail("well-formed grid rejected in the JSON form", case, type(e).__name__, None,
+                 key="json_form_rejected:" + type(e).__name__)
+        return False
+    cols = list(j.get("columns", {}).items())
+    if [n for n, _ in cols] != ref["names"][: len(cols)] or (ref["columns"] and any(c for c in ref["columns"])
+                                                               and len(cols) != len(ref["names"])):
+        out.fail("JSON form has other columns than the header rows say", case, [n for n, _ in cols], ref["names"],
+                 key="json_form:names")
+        return False
+    for jc, ((name, col), u, rcol) in enumerate(zip(cols, ref["units"], ref["columns"])):
+        if col.get("unit") != u:
+            out.fail("JSON form has another unit than the header rows say", dict(case, column=jc), col.get("unit"), u,
+                     key="json_form:unit")
+            return False
+        vals = col.get("values", [])
+        if not rcol and not vals:
+            continue
+        if len(vals) != len(rcol):
+            out.fail("JSON form column length differs", dict(case, column=jc), vals, None, key="json_form:collen")
+            return False
+        for i, ((kind, val), got) in enumerate(zip(rcol, vals)):
+            if kind == "num":
+                ok = (got is None) if math.isnan(val) else (isinstance(got, (int, float)) and not isinstance(got, bool)
+                                                            and float(got) == val)
+            elif kind == "onoff":
+                ok = got is val or got == val and isinstance(got, bool)
+            elif kind == "text":
+                ok = got == val or (isinstance(val, str) and val.endswith("\x00") and got == val.rstrip("\x00"))
+            else:   # dt: the token of the timestamp, None for NaT
+                ok = (got is None) if val == "NaT" else (got is not None and rc.ts_tok(__import__("pandas").Timestamp(got)) == val)
+            if not ok:
+                out.fail("a cell of the JSON form is not what the typing rules say (e.g. a value turned into a "
+                         "missing one)", dict(case, column=jc, row=i), repr(got), [kind, str(val)],
+                         key="json_form:" + kind)
+                return False
+    return True
+
+
+def ns_out_of_range(ref):
+    """does some datetime column hold a nanosecond-precision timestamp next to a date outside the ns range?"""
+    import re
+    for u, col in zip(ref["units"], ref["columns"]):
+        if u == "datetime":
+            toks = [tok for k, tok in col if k == "dt" and tok != "NaT"]
+            has_ns = any(re.search(r"\.\d{7,9}", t) for t in toks)
+            far = any(int(t[:4]) < 1678 or int(t[:4]) > 2261 for t in toks if t[:4].isdigit())
+            if has_ns and far:
+                return True
+    return False
+
+
 def mixed_offsets(ref):
     """does some datetime column of the reference table hold timestamps with two different UTC offsets?"""
     import re
@@ -276,7 +337,8 @@ def run(tier, seed, model_ok, translator, search=False):
     units = {"text": "text", "onoff": "onoff", "datetime": "datetime", "num": "kg"}
     n_a = 0
     for kind, unit in units.items():
-        spell = {"text": rc.TEXT_SPELL, "onoff": rc.ONOFF_SPELL, "datetime": rc.DT_SPELL, "num": rc.NUM_SPELL}[kind]
+        spell = {"text": rc.TEXT_SPELL, "onoff": rc.ONOFF_SPELL, "datetime": rc.DT_SPELL + NS_SPELL,
+                 "num": rc.NUM_SPELL}[kind]
         cells_all = list(spell) + list(rc.NATIVE)
         chunks = [cells_all[i:i + 7] for i in range(0, len(cells_all), 7)] + [[c] for c in cells_all]
         for cells in chunks:
@@ -342,9 +404,10 @@ def run(tier, seed, model_ok, translator, search=False):
             out.samples.append(case)
         out.count("c:orientation:" + ("transposed" if info["transposed"] else "rowwise"))
         if "exc" in impl:
-            if impl["exc"] == "ColumnUnitException" and mixed_offsets(ref):
-                out.count("c:mixed-utc-offsets-skipped")
-                continue        # mixed UTC offsets in one datetime column: an input error (C12), not a typing matter
+            if impl["exc"] == "ColumnUnitException" and (mixed_offsets(ref) or ns_out_of_range(ref)):
+                out.count("c:mixed-utc-offsets-or-ns-range-skipped")
+                continue        # mixed UTC offsets (or ns precision next to a date outside the ns range) in one
+                #                 datetime column: an input error (C12), not a typing matter
             out.fail("well-formed grid rejected", case, impl, None, key="wf_rejected:" + impl["exc"])
             continue
         if not compare_with_ref(ref, impl["ok"], out, case):
@@ -361,6 +424,10 @@ def run(tier, seed, model_ok, translator, search=False):
         if model_ok:
             ops.append(rc.model_op("make_table", grid, "strict"))
             pend.append(("make_table", case, impl))
+        # the JSON form of the same table (make_table_json_data): same typing rules, nothing else turned into a
+        # missing value — numbers by value (infinities stay infinities), NaN / NaT as None
+        if not check_json_form(grid, ref, out, case):
+            continue
         # the same block inside a stream, after a defective table, read with a collecting tracker:
         # it is typed by its own unit rows and cells only — nothing carries over from an earlier block
         from harness.props.c03 import ref_kind
